@@ -1,9 +1,90 @@
-"""C05 -- engine traces validated against spec/QMC.tla (see qcheck.py)."""
+"""C05 -- engine traces validated against spec/QMC.tla (see qcheck.py); plus move tables that change during the life of a
+simulation (a move added, or an entry replaced, after trials have been accepted): QMC.tla's C05_Aligned on every move
+that is in the table when an exchange is accepted."""
+import numpy as np
+
 from qcheck import engine_check
 
 
+class _Yes:
+    def evaluate(self, context):
+        return True
+
+    def to_dict(self):
+        return {"name": "Yes", "kwargs": {}}
+
+
+def late_moves_layer(rep, tier):
+    """The move table is live: a displacement / spectator / exchange move that joins (or replaces an entry) after exchanges
+    have been accepted is kept aligned from then on like every other move."""
+    from ase import Atoms
+
+    from calcs import Harmonic
+    from quansino.mc.gcmc import GrandCanonical
+    from quansino.moves.displacement import DisplacementMove
+    from quansino.moves.exchange import ExchangeMove
+    from quansino.operations.displacement import Ball, Translation
+
+    n = 0
+    rs = np.random.RandomState(rep.seed % 2**32)
+    for it in range(6 if tier == "quick" else 40):
+        molecular = it % 2 == 1
+        size = 2 if molecular else 1
+        n0 = 3
+        tmpl = Atoms("CO", positions=[[0, 0, 0], [0, 0, 1.13]]) if molecular else Atoms("Cu", positions=[[0, 0, 0]])
+        atoms = Atoms(("CO" if molecular else "Cu") * n0, positions=rs.rand(n0 * size, 3) * 4 + 2, cell=[9, 9, 9], pbc=True)
+        atoms.calc = Harmonic(k=0.05, centers=atoms.positions.copy(), eps=0.01)
+        lab = np.repeat(np.arange(n0), size)
+        mc = GrandCanonical(atoms, exchange_atoms=tmpl, temperature=3000.0, chemical_potential=0.0, number_of_exchange_particles=n0, max_cycles=2, seed=int(rs.randint(1, 10**6)))
+        mc.add_move(ExchangeMove(lab.copy(), Translation(), bias_towards_insert=0.6), criteria=_Yes(), name="exchange")
+        late = {}
+        try:
+            mc.run(3)   # exchanges are accepted (the criteria says yes)
+            cur = np.asarray(mc.moves["exchange"].move.labels).copy()
+            variant = ("add-displacement", "add-spectator", "replace-exchange")[it % 3]
+            if variant == "add-displacement":
+                late["disp"] = DisplacementMove(cur.copy(), Ball(0.2))
+                mc.add_move(late["disp"], criteria=_Yes(), name="disp")
+            elif variant == "add-spectator":
+                late["spectator"] = DisplacementMove(np.full(len(cur), -1), Ball(0.2))
+                late["spectator"].default_label = -1
+                mc.add_move(late["spectator"], criteria=_Yes(), name="spectator", probability=1e-9)
+            else:
+                late["exchange"] = ExchangeMove(cur.copy(), Translation(), bias_towards_insert=0.6)
+                mc.add_move(late["exchange"], criteria=_Yes(), name="exchange")
+            natoms_before = len(mc.atoms)
+            mc.run(4)
+        except Exception as ex:  # noqa: BLE001
+            rep.violation(f"raise:late-move:{type(ex).__name__}", f"a grand-canonical run whose table changed after accepted exchanges ({variant if 'variant' in dir() else '?'}) raised {ex!r}", {"it": it})
+            continue
+        n += 1
+        rep.count(("late-move", it, variant), nontrivial=True)
+        ref = np.asarray(mc.moves["exchange"].move.labels) if variant != "replace-exchange" else None
+        for name, mv in late.items():
+            labels = np.asarray(mv.labels)
+            if len(labels) != len(mc.atoms):
+                rep.violation(f"late-move-not-aligned:{variant}", f"a move that joined the table after accepted exchanges ({variant}) has {len(labels)} labels for {len(mc.atoms)} atoms ({natoms_before} atoms when it joined): it was never told about the accepted exchanges", {"variant": variant, "labels": labels.tolist(), "natoms": len(mc.atoms)})
+                break
+            if name == "spectator" and np.any(labels != -1):
+                rep.violation("late-move-default-label", f"a spectator move (default label -1) that joined later has labels {labels.tolist()}", {"variant": variant})
+                break
+            if name == "disp" and ref is not None:
+                # same partition of the atoms into particles as the exchange move sees
+                same = all((labels[i] == labels[j]) == (ref[i] == ref[j]) for i in range(len(labels)) for j in range(len(labels)))
+                if not same:
+                    rep.violation("late-move-partition", f"a displacement move that joined later groups the atoms differently ({labels.tolist()}) than the exchange move ({ref.tolist()})", {"variant": variant})
+                    break
+        try:
+            mc.close()
+        except Exception:  # noqa: BLE001
+            pass
+    return n
+
+
 def run(tier):
-    return engine_check("C05", tier)
+    rep = engine_check("C05", tier, finish=False)
+    rep.add(late_move_cases=late_moves_layer(rep, tier))
+    return rep.finish()
 
 
 def replay(record):
